@@ -107,6 +107,7 @@ var (
 	active    bool
 	coarse    bool
 	permOn    bool
+	poolOn    bool
 	clockOn   bool
 	spinSleep bool
 
@@ -716,6 +717,116 @@ func OnceDo(o *sync.Once, f func()) {
 	wake(uintptr(unsafe.Pointer(o)))
 }
 
+// ---------------------------------------------------------------------------
+// sync.Cond of the code under test: a FIFO wait list per condition variable (Go's
+// notify list is FIFO too). Only the model is operated; the associated Locker is
+// released and re-acquired through the simulated Lock/Unlock, which operate the
+// real mutex.
+
+var (
+	tcond   [MaxTasks]uintptr // condition variable the task waits on (0 = none)
+	tticket [MaxTasks]int64   // FIFO position among the waiters
+	tsignal [MaxTasks]bool    // set by Signal/Broadcast
+	ticket  int64
+)
+
+//go:norace
+func lockerUnlock(l sync.Locker) {
+	switch m := l.(type) {
+	case *sync.Mutex:
+		Unlock(m)
+	case *sync.RWMutex:
+		WUnlock(m)
+	default:
+		abort("unmodelled-locker-of-sync.Cond")
+	}
+}
+
+//go:norace
+func lockerLock(l sync.Locker) {
+	switch m := l.(type) {
+	case *sync.Mutex:
+		Lock(m)
+	case *sync.RWMutex:
+		WLock(m)
+	default:
+		abort("unmodelled-locker-of-sync.Cond")
+	}
+}
+
+// CondWait is the replacement of (*sync.Cond).Wait.
+//
+//go:norace
+func CondWait(c *sync.Cond) {
+	if !active {
+		c.Wait()
+		return
+	}
+	me := cur
+	ticket++
+	tcond[me] = uintptr(unsafe.Pointer(c))
+	tticket[me] = ticket
+	tsignal[me] = false
+	lockerUnlock(c.L)
+	for !tsignal[me] {
+		st.Blocked++
+		tstate[me] = stBlocked
+		tblock[me] = uintptr(unsafe.Pointer(c))
+		tbsite[me] = lastSite
+		decide(true, 3)
+	}
+	tcond[me] = 0
+	lockerLock(c.L)
+}
+
+//go:norace
+func condWake(c *sync.Cond, all bool) {
+	a := uintptr(unsafe.Pointer(c))
+	for {
+		best := int32(-1)
+		for i := int32(0); i < ntasks; i++ {
+			if tcond[i] == a && !tsignal[i] && (best < 0 || tticket[i] < tticket[best]) {
+				best = i
+			}
+		}
+		if best < 0 {
+			return
+		}
+		tsignal[best] = true
+		if tstate[best] == stBlocked && tblock[best] == a {
+			tstate[best] = stRunnable
+			tblock[best] = 0
+		}
+		if !all {
+			return
+		}
+	}
+}
+
+// CondSignal is the replacement of (*sync.Cond).Signal.
+//
+//go:norace
+func CondSignal(c *sync.Cond) {
+	if !active {
+		c.Signal()
+		return
+	}
+	condWake(c, false)
+	edge(2)
+}
+
+// CondBroadcast is the replacement of (*sync.Cond).Broadcast.
+//
+//go:norace
+func CondBroadcast(c *sync.Cond) {
+	if !active {
+		c.Broadcast()
+		return
+	}
+	condWake(c, true)
+	edge(2)
+}
+
 // Go is the replacement of a `go` statement in instrumented code: while the
 // scheduler is active the new goroutine becomes a task.
 //
@@ -865,6 +976,11 @@ func setup(fns []func()) {
 	nRW = 0
 	nWG = 0
 	nOnce = 0
+	ticket = 0
+	for i := range tcond {
+		tcond[i] = 0
+		tsignal[i] = false
+	}
 	for i := range twaitW {
 		twaitW[i] = false
 	}
